@@ -8,6 +8,10 @@ CHECKS = {
          "samples programmes/knobs/schedules; no injected faults; write errors that kevo itself reports count as no-effect"),
  "C02": ("fault_enumeration", "4 (C02)", "every state-changing I/O point of a generated run is a crash point: stop before / after / torn at up to 5 offsets, under process-death and (with synchronous logging) power-loss images; the reopened state must equal a prefix state within [acknowledged, issued]; plus sampled multi-crash cycles and clean close",
          "enumeration is complete per generated programme (all I/O points), programmes are sampled; POWER-DATA model treats directory operations as durable and exempts MANIFEST"),
+ "C05": ("exploration", "4 (C05)", "programmes that spread versions and deletion markers over active/immutable memtables and SSTables (log files retired so that after a reopen the tables are the only copy) with scan probes on the engine and inside transactions: full/range/prefix/suffix/limit scans, Seek and SeekToLast (also inside range iterators) against the sorted reference map; plus a scanner task against concurrent writers of other keys with flush/compaction",
+         "probe targets are sampled; concurrent non-transactional scans are judged only on ordering, duplicates, untouched keys and fabricated values"),
+ "C12": ("exploration", "4 (C12)", "programmes with settle points (everything flushed, log files retired) followed by triggered, range and automatic compactions, reopens and compactions in which the process is killed at a chosen I/O point; the newest-wins merged view of the table files (read by harness-side sstable readers) and the engine's reads live and after reopen are compared with the reference map; every table must be sorted and duplicate-free",
+         "the merged-view order (level 0 newest file first, then deeper levels, newer file first inside a level) is the harness's reading of the LSM layout; crash points inside compactions are sampled (1-40 I/O points in), not enumerated"),
  "C08": ("exploration", "4 (C08)", "single-writer programmes with explicit and automatic log rotations, clean restarts and process crashes; after every acknowledged write the reported last sequence must exceed every earlier surviving write's, and the stored log entries (file order, wal.ReplayWALDir) must form strictly increasing sequence groups at every open and at the end",
          "crashes here stop the process between I/O points only (C02 enumerates the points); the replication protocol's view of the sequence is checked under C13/C14"),
  "C09": ("exploration", "4 (C09)", "generated entry sequences (lengths around 0, 1, the 32KB record limit, multi-fragment keys and values, batches beyond the 64KB buffer) through the real wal package on the simulated disk with short reads, rotation and reopen; ReplayWALDir and GetEntriesFrom(s) compared with a single-copy log",
